@@ -70,14 +70,14 @@ def make_scenario(tag):
 LOCKER = r'''
 import fcntl, sys, time
 f = open(sys.argv[1], "r+b")
-fcntl.lockf(f, fcntl.LOCK_EX | fcntl.LOCK_NB)
+fcntl.lockf(f, (fcntl.LOCK_SH if len(sys.argv) > 2 and sys.argv[2] == "shared" else fcntl.LOCK_EX) | fcntl.LOCK_NB)
 print("locked", flush=True)
 time.sleep(600)
 '''
 
 
-def replay_lock(op):
-    """Returns dict(reproduced: bool|None, log: str)."""
+def replay_lock(op, shared=False):
+    """Returns dict(reproduced: bool|None, log: str). `shared`: the foreign process holds a shared (read) lock."""
     exe, msg = build_binary()
     if not exe:
         return dict(reproduced=None, log="could not build the real binary: " + msg)
@@ -89,7 +89,7 @@ def replay_lock(op):
         return dict(reproduced=None, log="group failed: " + out[-500:])
     victim = os.path.join(tree, "b", "x")
     before = inventory(tree)
-    locker = subprocess.Popen([sys.executable, "-c", LOCKER, victim], stdout=subprocess.PIPE, text=True)
+    locker = subprocess.Popen([sys.executable, "-c", LOCKER, victim] + (["shared"] if shared else []), stdout=subprocess.PIPE, text=True)
     try:
         line = locker.stdout.readline()
         if "locked" not in line:
@@ -107,8 +107,8 @@ def replay_lock(op):
         " ".join(args), p.returncode, p.stdout[-1500:], before, after,
         inventory(os.path.join(d, "target")) if os.path.isdir(os.path.join(d, "target")) else {})
     return dict(reproduced=bool(touched), log=log,
-                what="the file b/x, locked by another process, was %s by `fclones %s`" %
-                     ("changed/removed" if touched else "left alone", " ".join(OPS[op])))
+                what="the file b/x, on which another process holds %s fcntl lock, was %s by `fclones %s`" %
+                     ("a shared" if shared else "an exclusive", "changed/removed" if touched else "left alone", " ".join(OPS[op])))
 
 
 def replay_transform_filter():
